@@ -1,10 +1,40 @@
 """Single source for MANIFEST.json (see tools_gen_manifest.py)."""
 
 ENGINES = [
-    {"name": "E-MODEL", "path": "sa/model.py", "serves_properties": [], "kind_free_text": "program model / resolver (ast)"},
+    {"name": "E-MODEL", "path": "sa/model.py", "serves_properties": ["C01-C20"], "kind_free_text": "program model / resolver over /repo's ast (modules, classes, MRO, imports)"},
+    {"name": "E-EP", "path": "sa/ep.py", "serves_properties": ["C01", "C02", "C03", "C04", "C05", "C06", "C07", "C10", "C11", "C18", "C19"], "kind_free_text": "exact exp-polynomial / rational normal forms, symbolic differentiation, tolerant equality"},
+    {"name": "E-SYM", "path": "sa/interp.py (symeval*.py, values.py, strtree.py, fmt.py)", "serves_properties": ["C01", "C02", "C03", "C04", "C05", "C06", "C07", "C10", "C17", "C19"], "kind_free_text": "abstract evaluator: if-converted (gated) translation of repo functions into normal-form values, output-expression trees and effect logs; loops by recurrences/families"},
+    {"name": "E-CMP", "path": "sa/treecmp.py + sa/specs/writers.py", "serves_properties": ["C01", "C02", "C03", "C04", "C05", "C19"], "kind_free_text": "reference writers transcribed from the property statements; structural/algebraic tree equality modulo alpha-renaming"},
 ]
 
-CHECKS = {}
+_W = ("translation of the real write path into an output-expression tree by abstract evaluation of /repo's source "
+      "(no execution), compared field by field with a reference writer transcribed from the statement; values are compared "
+      "as exact rational normal forms, so equality holds for all grids, potentials and element lists at once")
+_N = ("trusted: CPython's ast parser, the abstract evaluator and normal-form algebra under /verif/sa, the reference writers "
+      "in sa/specs/writers.py (read them: they are the oracle). Not decided: floating-point rounding of the evaluated "
+      "formulas, third-party library behaviour.")
+
+CHECKS = {
+    "C01": {"engine": "E-SYM", "level": "other", "design_ref": "DESIGN.md section 4 C01 and section 11",
+            "text": "Conformance of every piece of the LAMMPS table emitted by LAMMPS_PairTabulation.write and writePotentials('LAMMPS') to the reference table (header N/lo/hi, rows 1..N at n*dr, E and -dE/dr of the same callable), of the potable factory route, and of gradient()/num_deriv() (analytic iff .deriv, else central difference). " + _W,
+            "note": _N, "technique": "abstract interpretation to output-expression trees + algebraic normal-form equality against a reference writer"},
+    "C02": {"engine": "E-SYM", "level": "other", "design_ref": "DESIGN.md section 4 C02 and section 11",
+            "text": "Conformance of the DL_POLY TABLE written by DLPoly_PairTabulation.write / writePotentials('DL_POLY') to the reference (exact field formats, energies then -r dV/dr at k*delpot, 4 per record) and of the divisible-by-four rejection on the API and factory routes (both target spellings). " + _W,
+            "note": _N, "technique": "abstract interpretation to output-expression trees (accumulator recurrences, chunk idiom) + normal-form equality; raise-condition extraction"},
+    "C03": {"engine": "E-SYM", "level": "other", "design_ref": "DESIGN.md section 4 C03 and section 11",
+            "text": "Conformance of the setfl file (class and public function) to the reference, of the potable route for all three target spellings, of the EAM builder's constructor binding and metadata defaults, and of Reference_Data precedence. " + _W,
+            "note": _N, "technique": "abstract interpretation to output-expression trees with symbolic dictionary lookups + normal-form equality; abstract evaluation of builder and reference-data code"},
+    "C04": {"engine": "E-SYM", "level": "other", "design_ref": "DESIGN.md section 4 C04 and section 11",
+            "text": "Index-role agreement of Finnis-Sinclair densities in the eam/fs and EEAM writers (tree equality with reference writers that state the consumer's convention), Excel columns, 'A->B' key parsing, FS builder nesting and zero filling, all on models with pairwise distinct opaque density functions so that any transposition changes a compared value.",
+            "note": _N + " The consumers' conventions are those restated in the property.", "technique": "abstract interpretation + index-role comparison (who subscripts whom) against reference writers"},
+    "C05": {"engine": "E-SYM", "level": "other", "design_ref": "DESIGN.md section 4 C05 and section 11",
+            "text": "Conformance of TABEAM/EEAM output (classes and public functions) to the reference, and an identity proof in n = len(eampots) that the declared function count equals the number of blocks counted in the implementation's own output tree (n(n+1)/2 sorted unordered pairs + n + n or n*n).",
+            "note": _N, "technique": "abstract interpretation to output-expression trees + symbolic block counting (polynomial identity in n)"},
+    "C17": {"engine": "E-SYM", "level": "other", "design_ref": "DESIGN.md section 4 C17 and section 11",
+            "text": "Effect-order rule over all 11 registered tabulation classes: in the abstract evaluation of write(fp) no evaluation of a user-supplied callable may follow (or share a loop with) a write that reaches fp; action_tabulate builds before it opens the file. Lazy generators are modelled as interleaving with their consumer.",
+            "note": "trusted: the abstract evaluator's effect log (EVAL = call of an opaque user callable, WRITE = write on the file parameter; StringIO writes are local). Not decided: I/O errors, failures inside openpyxl.save.",
+            "technique": "effect/ordering analysis (EVAL* WRITE* typestate) over inlined call graph with loop nesting"},
+}
 
 _PENDING = "checker not built yet in this session (design in DESIGN.md section 4); not claimed until its check exists"
-NOT_APPLICABLE = dict(("C%02d" % i, _PENDING) for i in range(1, 21))
+NOT_APPLICABLE = dict(("C%02d" % i, _PENDING) for i in range(1, 21) if ("C%02d" % i) not in CHECKS)
